@@ -73,6 +73,8 @@ def plan(tier, seed):
         for ch in range(nchunk):
             jobs.append(("thr", shape, ch, nchunk, seed, 5000 if tier == "quick" else 5001))
     jobs.append(("cli", seed, 3000))
+    for ch in range(8):
+        jobs.append(("thr", "neartie", ch, 8, seed, 4000))
     jobs.sort(key=lambda j: -j[-1])
     return jobs
 
@@ -185,6 +187,9 @@ def expected_records(depth, positions, refidx, ind_maf, ind_mad, min_ind, maf, m
 def job_thr(job):
     from mchap.application import find_snvs
 
+    neartie = job[1] == "neartie"
+    if neartie:
+        job = (job[0], (1, 2)) + tuple(job[2:])
     _, (npos, nsamp), ch, nchunk, seed, _ = job
     r = Result()
     payload = {"kind": "job", "job": job}
@@ -207,7 +212,21 @@ def job_thr(job):
     else:
         vecs = [v for v in itertools.product([0, 3, 10], repeat=4) if sum(1 for x in v if x) <= 2] + [(1, 3, 1, 3), (1, 1, 3, 0), (3, 10, 3, 0), (0, 3, 1, 1)]
     cells = npos * nsamp
-    if cells == 1:
+    if neartie:
+        # two ALT alleles whose mean sample frequencies differ by less than the printed precision (or tie exactly)
+        tensors = []
+        ref_b = refidx[0]
+        others = [a for a in range(4) if a != ref_b]
+        for n1 in range(100, 121, 2):
+            for n2 in range(100, 121):
+                for (a1, a2) in ((others[0], others[2]), (others[2], others[0]), (others[1], others[2])):
+                    v1 = [0, 0, 0, 0]
+                    v2 = [0, 0, 0, 0]
+                    v1[ref_b], v1[a1] = n1, 15
+                    v2[ref_b], v2[a2] = n2, 15
+                    tensors.append((tuple(v1), tuple(v2)))
+        thr_override = [(0.1, 3, 1, 0.0, 0), (0.0, 0, 1, 0.0, 0)]
+    elif cells == 1:
         tensors = [(v,) for v in vecs]
     elif cells == 2:
         tensors = list(itertools.product(vecs, repeat=2))
@@ -215,6 +234,8 @@ def job_thr(job):
         tensors = list(itertools.product(vecs, repeat=4))
     thr_sets = [(im, iad, mi, mf, md) for im in (0.0, 0.1, 0.5) for iad in (0, 3) for mi in (1, 2) for mf in (0.0, 0.2) for md in (0, 5)]
     thr_sets = [t for t in thr_sets if t[2] <= nsamp or t[2] == 2]
+    if neartie:
+        thr_sets = thr_override
     bam_paths = ["s%d.bam" % i for i in range(nsamp)]
     real = find_snvs.bam_region_depths
     for ti, tens in enumerate(tensors):
